@@ -1,4 +1,4 @@
-import MmtkModel.Model.SideMetaBulk
+import MmtkModel.Model.SideMetaSearch
 import Driver.Util
 /-!
 # `side` component: the side-metadata accessors on a private window (C20–C22)
@@ -215,6 +215,39 @@ def step (debug : Bool) (st : St) (args : List String) : St × String :=
         match r with
         | some m' => let st' := commit st m'; (st', "- " ++ st'.w1.hex)
         | none => (st, "panic " ++ st.w1.hex)
+      | _ => (st, "bad-op")
+    else if op.startsWith "find_" ∨ op.startsWith "scan" then
+      match nums? rest with
+      | some [x, y] =>
+        let env : MapEnv := {
+          mapped := fun a =>
+            if dataBase ≤ a ∧ a < dataBase + 64 * chunk then st.dmap.testBit ((a - dataBase) / chunk)
+            else decide (metaLo ≤ a ∧ a < metaHi),
+          gran := chunk }
+        let m := toMem st
+        let s := st.s1
+        let a := dataBase + x
+        let showO : Option Nat → String
+          | some v => toString ((v + 2 ^ 64 - dataBase) % 2 ^ 64)
+          | none => "none"
+        let showF : Option (Option Nat) → String
+          | some r => showO r
+          | none => "panic:assert"
+        let showL : Option (List Nat) → String
+          | some l => s!"{l.length}:" ++ ",".intercalate (l.map fun v => toString ((v + 2 ^ 64 - dataBase) % 2 ^ 64))
+          | none => "panic:assert"
+        let out :=
+          if op == "find_prev" then showF (findPrev debug env s m a y)
+          else if op == "find_prev_fast" then showO (findPrevFast env s m a y)
+          else if op == "find_prev_simple" then showO (findPrevSimple env s m a y)
+          else if op == "find_next" then showF (findNext debug env s m a y)
+          else if op == "find_next_fast" then showO (findNextFast env s m a y)
+          else if op == "find_next_simple" then showO (findNextSimple env s m a y)
+          else if op == "scan" then showL (scan debug env s m a (dataBase + y))
+          else if op == "scan_fast" then showL (some (scanFast s m a (dataBase + y)))
+          else if op == "scan_simple" then showL (scanSimple debug env s m a (dataBase + y))
+          else "bad-op"
+        (st, out)
       | _ => (st, "bad-op")
     else if isAccessor op then
       match parseOp st.s1 op rest with
